@@ -126,6 +126,10 @@ def paired_candidate(ctx):
                        True, "node is assigned once", c.loc())
                 continue
             missing = [b for b in nb if b not in db]
+            if missing and len(db) == 1:
+                import dmlrules
+                if rn in dmlrules._deps(f, rd, 200):
+                    missing = []   # the distance is computed from the node variable at the point of use
             names = {d[1][0]: d[0] for d in f.dbg if not d[1][1]}
             ctx.ob("N5.CANDIDATE-PAIRED", "%s@%s" % (f.id.rsplit("::", 1)[-1], len([1 for o in ctx.obs if o["rule"] == "N5.CANDIDATE-PAIRED" and o["key"].startswith(f.id.rsplit("::", 1)[-1] + "@")])),
                    not missing, "node `%s` and distance `%s` are reassigned together (%d site(s))" % (names.get(rn, rn), names.get(rd, rd), len(nb)) if not missing else
